@@ -179,7 +179,21 @@ def main():
                  'the correspondence harness (tools/checks/hdr_common.py, Driver/Hdr.lean) and the Python reference hdr_common.ref_tags'],
         explanation=EXPLANATION)
 
-EXPLANATION = 'see DESIGN-notes/hdr.md'
+EXPLANATION = (
+    'Proved for ALL files (Props/C15.lean): header_tags_eq - whenever the header stages return, the set of (tag, extras) the imperative model '
+    'of check_comments / check_headers / check_mime / check_dates / check_project / check_translator emits equals Spec.HeaderRules.Reported '
+    '(Appendix A, one clause per tag), for any entries, any header text (any lines, multiplicity, order), any comments, PO / POT / MO and every '
+    'library result; parse_header_lines / parse_header_field / parse_header_stray (field grammar); special_domain_iff, domains_pin, email_domain, '
+    'special_email_iff, dotless_email_iff, address_verdict, unparsable_url_reported; content_type_form; conflict_marker_spec; clean_header_silent '
+    '(+ kernel-evaluated clean header in the three kinds); pot_exemptions, po_boilerplate_due, pot_comments_subset; mo_exemptions; hdr_nocrash, '
+    'hdr_nocrash_charset (with C20 check_total), unusual_names_total; source_pins, registry_case_distinct, tag_sites_pin, emitted_names_registered. '
+    'Reused, not re-modelled: check_dates (C18 Date.checkDates, NoCrash, template_placeholder_exempt), the charset fragment (C20 '
+    'Charset.checkCharset, check_classification, check_total); Language / Plural-Forms / X-Poedit-* rules are C19 / C07. '
+    'OUTSTANDING (test-level only): a declarative reading of the six check_comments regexes and of find_unusual_characters (their rules are '
+    'stated with the model scanners), str.splitlines, and that CPython re decides what the scanners decide - all tied by the hdr-* and '
+    'check-comments streams; multiplicity of reports (sorted(set())) is compared by the correspondence (ordered lists) and the falsifier '
+    '(multisets), not proved. FINDING (fixed in /repo, re-found by this check on the pre-fix tree): Report-Msgid-Bugs-To: http://[foo crashed '
+    'with ValueError (2f85d76).')
 
 if __name__ == '__main__':
     common.main_wrapper(main)
